@@ -349,7 +349,7 @@ func c19(c *core.Ctx) {
 			})
 			c.Check(good && n > 0, "C19.R3", "validate|unknown-user", ipos(c, gets[0].Instr), "unknown user name is refused", "validate can return permitted=true for a user name that is not a stored account")
 			args := ssax.Args(gets[0].Instr)
-			c.Check(len(args) == 1 && fl.OnlyFrom(args[0], validate.Params[1].Name()), "C19.R3", "validate|lookup-by-username", ipos(c, gets[0].Instr), "account looked up by the user name", "validate looks the account up by something else than the user name")
+			c.Check(len(args) == 1 && fl.OnlyFrom(args[0], paramOf(validate, 1).Name()), "C19.R3", "validate|lookup-by-username", ipos(c, gets[0].Instr), "account looked up by the user name", "validate looks the account up by something else than the user name")
 		} else {
 			c.Undecidedf("C19.R3", "validate|unknown-user", fpos(c, validate), "expected one indexer lookup in validate, found %d", len(gets))
 		}
